@@ -710,6 +710,13 @@ class Program:
                 continue
             name = e.args[0].value
             kw = {k.arg: k.value for k in e.keywords}
+            for k_, v_ in list(kw.items()):
+                c_ = self.const_expr(m, v_) if isinstance(
+                    v_, (ast.Name, ast.Attribute)) else None
+                if c_ is not None:
+                    kw[k_] = c_
+            if len(e.args) > 1 and 'default' not in kw:
+                pass
             out[name] = {'type': ty, 'default': kw.get('default'),
                          'choices': kw.get('choices'), 'node': e}
         return out
